@@ -26,6 +26,10 @@ def cut_points(rng, score, n=2):
         t0 += cd
         pts.add(t0)
     pts.add(t0 + 1); pts.add(t0 + F(1, 2))
+    # cut points off every grid: what is left of a cut note then has a denominator beyond the 1/1000 resolution of the Note constructor
+    for _ in range(3):
+        if t0 > 0:
+            pts.add(F(rng.randrange(1, 1000), 1000) * t0); pts.add(F(rng.randrange(1, 7 * 11 * 13), 7 * 11 * 13) * t0)
     return sorted(pts), t0
 
 
